@@ -41,7 +41,9 @@ describe('C18',
          'record_iteration_* refuses to run on an uninitialised database; (meta) every metadata column the '
          'reader dereferences is filled by the initial INSERT or by the UPDATE that startup executes in a '
          'transaction on every recording path; (reader) every table the reader selects from is created in '
-         '_initialize_database and nowhere else; (connect) sqlite3.connect keeps implicit transactions; (writers) '
+         '_initialize_database and nowhere else; (connect) sqlite3.connect of the recorder keeps implicit transactions and every sqlite3.connect '
+         'of recorder, reader and any other module opening a recording permits hot-journal recovery '
+         '(no URI mode=ro / immutable=1; computed URIs undecided); (writers) '
          'no other shipped module executes a writing SQL statement. '
          'Does not decide: SQLite/OS durability, the window inside the first startup() (DDL autocommits per '
          'statement; the file is unreadable until the first metadata UPDATE commits), pairing of a driver '
@@ -742,43 +744,66 @@ def _reader_meta_columns(repo):
 def meta(repo, out):
     """Every metadata column the reader dereferences is filled before the first case can be recorded."""
     rfn, need = _reader_meta_columns(repo)
+    tabs = created_tables(repo)
+    # -- who fills which column (clauses below are decided independently of each other)
     ifn = repo.func(REC, f'{CLS}._initialize_database')
     ictx = Ctx(ifn)
     nonnull = set()
+    maybe = set()      # columns whose filling could not be read
     for c in exec_calls(ifn):
         s = parse_sql(c)
         if s is not None and s.verb == 'INSERT' and s.table == 'metadata':
             p = _params(ictx, c, ictx.node_of(c)[0])
             if p is None or len(p.elts) != len(s.cols):
                 out.unsure(ifn, c, 'parameters of the metadata INSERT not recognised')
-                return
+                maybe |= set(s.cols)
+                continue
             for col, e in zip(s.cols, p.elts):
                 if not (isinstance(e, ast.Constant) and e.value is None):
                     nonnull.add(col)
+    updates = []       # every UPDATE metadata of the recorder, wherever it lives
+    for f in rec_funcs(repo):
+        for c in exec_calls(f):
+            s = parse_sql(c)
+            if s is not None and s.verb == 'UPDATE' and s.table == 'metadata':
+                updates.append((f, c, s))
+    updated = set()
+    for f, c, s in updates:
+        updated |= set(s.cols)
+
+    # -- clause 1: the UPDATE is executed, committed, by startup on every recording path
     sfn = repo.func(REC, f'{CLS}.startup')
-    sctx = Ctx(sfn)
-    g = sctx.g
-    upd = []
-    for c in exec_calls(sfn):
-        s = parse_sql(c)
-        if s is not None and s.verb == 'UPDATE' and s.table == 'metadata':
-            upd.append((c, s))
-    if not upd:
-        where = []
-        for f in rec_funcs(repo):
-            for c in exec_calls(f):
-                s = parse_sql(c)
-                if s is not None and s.verb == 'UPDATE' and s.table == 'metadata':
-                    where.append(f.qualname)
+    here = [(c, s) for f, c, s in updates if f.qualname == sfn.qualname]
+    if not here:
+        where = sorted({f.qualname for f, c, s in updates})
         out.bad(sfn, sfn.node, 'startup does not write the metadata row' +
-                (f' (it is written in {sorted(set(where))})' if where else '') +
+                (f' (it is written in {where})' if where else '') +
                 ': a process killed before that write leaves NULL blobs that CaseReader cannot open',
                 key='metadata-not-at-startup')
-        return
-    if len(upd) != 1:
-        out.unsure(sfn, upd[1][0], 'several UPDATE metadata statements in startup')
-        return
-    uc, us = upd[0]
+    elif len(here) != 1:
+        out.unsure(sfn, here[1][0], 'several UPDATE metadata statements in startup')
+    else:
+        _meta_placement(sfn, here[0][0], here[0][1], out)
+
+    # -- clause 2..n: one per column the reader dereferences
+    for col, node in sorted(need.items()):
+        if col not in tabs.get('metadata', []):
+            out.bad(rfn, node, f"reader dereferences metadata column '{col}' which CREATE TABLE metadata does "
+                    'not define', key=f'metadata-column-{col}')
+        elif col in nonnull or col in updated:
+            src = 'initial INSERT' if col in nonnull else 'metadata UPDATE'
+            out.ok(rfn, node, f"'{col}' filled by the {src}")
+        elif col in maybe:
+            out.unsure(rfn, node, f"cannot read whether the initial INSERT fills '{col}'")
+        else:
+            out.bad(rfn, node, f"reader dereferences metadata column '{col}' which neither the initial INSERT "
+                    'nor the metadata UPDATE fills: a file of a run killed right after startup cannot be opened',
+                    key=f'metadata-column-{col}')
+
+
+def _meta_placement(sfn, uc, us, out):
+    sctx = Ctx(sfn)
+    g = sctx.g
     un = sctx.node_of(uc)
     conn = sctx.conn_of(astx.receiver(uc), un[0])
     if conn is None:
@@ -799,19 +824,6 @@ def meta(repo, out):
                 _trace(g, par, g.exit), key='metadata-update-skipped')
         return
     out.ok(sfn, uc, f'UPDATE metadata SET {", ".join(us.cols)} in `with {conn}` on every recording path')
-    provided = nonnull | set(us.cols)
-    tabs = created_tables(repo)
-    for col, node in sorted(need.items()):
-        if col not in tabs.get('metadata', []):
-            out.bad(rfn, node, f"reader dereferences metadata column '{col}' which CREATE TABLE metadata does "
-                    'not define', key=f'metadata-column-{col}')
-        elif col not in provided:
-            out.bad(rfn, node, f"reader dereferences metadata column '{col}' which neither the initial INSERT "
-                    'nor the startup UPDATE fills: a file of a run killed right after startup cannot be opened',
-                    key=f'metadata-column-{col}')
-        else:
-            src = 'initial INSERT' if col in nonnull else 'startup UPDATE'
-            out.ok(rfn, node, f"'{col}' filled by the {src}")
 
 
 # --------------------------------------------------------------------------- C18.reader
@@ -869,6 +881,10 @@ def reader(repo, out):
     for fn in m.funcs.values():
         for c in exec_calls(fn):
             s = parse_sql(c)
+            if s is not None and s.verb == 'PRAGMA' and len(s.toks) > 1 and _up(s.toks[1]) == 'QUERY_ONLY':
+                # measured (/tmp/c18/hot.py): a hot journal is still rolled back under query_only
+                out.ok(fn, c, 'PRAGMA query_only does not prevent hot-journal recovery')
+                continue
             if s is None or s.table is None:
                 out.unsure(fn, c, 'SQL text not recognised')
                 continue
@@ -888,50 +904,191 @@ def reader(repo, out):
 
 
 # --------------------------------------------------------------------------- C18.connect
-@rule('C18.connect', floor=2)
+_CONNECT_NAMES = ('sqlite3.connect', 'connect', 'sqlite3.dbapi2.connect')
+_TRUE_WORDS = ('1', 'true', 'yes', 'on')
+EXTRA_OPENERS = ('openmdao/visualization/realtime_plot/realtime_plot.py',)   # outside shipped(), opens recordings
+
+
+def _split_holes(parts, node, braces):
+    """Replace %-conversions (or {...} fields) inside literal pieces by holes."""
+    out = []
+    for p in parts:
+        if isinstance(p, Hole):
+            out.append(p)
+            continue
+        buf = ''
+        i = 0
+        while i < len(p):
+            ch = p[i]
+            if not braces and ch == '%' and i + 1 < len(p):
+                if p[i + 1] == '%':
+                    buf += '%'
+                else:
+                    out.extend([buf, Hole(node)])
+                    buf = ''
+                i += 2
+                continue
+            if braces and ch == '{':
+                j = p.find('}', i)
+                if j < 0:
+                    return None
+                out.extend([buf, Hole(node)])
+                buf = ''
+                i = j + 1
+                continue
+            buf += ch
+            i += 1
+        out.append(buf)
+    return [x for x in out if x != '']
+
+
+def _uri_parts(e, ctx, at, depth=0):
+    """Literal pieces (str / Hole) of a database-name expression, or None when it is wholly computed."""
+    if isinstance(e, ast.Constant) and isinstance(e.value, str):
+        return [e.value]
+    if isinstance(e, ast.JoinedStr):
+        return sql_parts(e)
+    if isinstance(e, ast.BinOp) and isinstance(e.op, ast.Add):
+        left, right = _uri_parts(e.left, ctx, at, depth + 1), _uri_parts(e.right, ctx, at, depth + 1)
+        if left is None and right is None:
+            return None
+        return (left or [Hole(e.left)]) + (right or [Hole(e.right)])
+    if isinstance(e, ast.BinOp) and isinstance(e.op, ast.Mod):
+        left = _uri_parts(e.left, ctx, at, depth + 1)
+        return None if left is None else _split_holes(left, e.right, braces=False)
+    if isinstance(e, ast.Call) and astx.callee_attr(e) == 'format' and isinstance(e.func, ast.Attribute):
+        base = _uri_parts(e.func.value, ctx, at, depth + 1)
+        return None if base is None else _split_holes(base, e, braces=True)
+    if isinstance(e, ast.Name) and depth < 3:
+        v = ctx.rd.value(at, e.id)
+        if v is not None:
+            ds = ctx.rd.defs(at, e.id)
+            return _uri_parts(v, ctx, next(iter(ds)), depth + 1)
+    return None
+
+
+def _open_mode(c, ctx):
+    """('ok'|'bad'|'unsure', text) for the way a sqlite3.connect call opens its file w.r.t. hot journals."""
+    uri = astx.kwarg(c, 'uri')
+    if uri is None and len(c.args) > 7:
+        return 'unsure', 'positional uri argument'
+    if uri is None or (isinstance(uri, ast.Constant) and not uri.value):
+        return 'ok', 'plain path: opened read/write, a hot journal is rolled back on first access'
+    if not (isinstance(uri, ast.Constant) and uri.value is True):
+        return 'unsure', 'uri= argument is not a literal'
+    db = astx.arg(c, 0, 'database')
+    at = ctx.node_of(c)[0]
+    parts = _uri_parts(db, ctx, at) if db is not None else None
+    if parts is None:
+        return 'unsure', 'URI is computed; its query parameters cannot be read'
+    query = None       # literal text after the first '?', holes in it make it undecidable
+    for p in parts:
+        if isinstance(p, Hole):
+            if query is not None:
+                return 'unsure', 'query part of the URI contains a computed piece'
+            continue
+        if query is None:
+            if '?' in p:
+                query = p.split('?', 1)[1]
+        else:
+            query += p
+    if query is None:
+        if isinstance(parts[-1], Hole) and any(isinstance(p, str) and p.lower().startswith('file:') for p in parts[:1]):
+            # 'file:' + <computed>: the computed tail may carry a query
+            tail = parts[-1].node
+            if not isinstance(tail, (ast.Name, ast.Attribute, ast.Call)) or isinstance(tail, ast.Call) and \
+                    astx.call_name(tail) not in ('str', 'os.path.abspath', 'quote', 'urllib.parse.quote'):
+                return 'unsure', 'tail of the URI is computed'
+        return 'ok', 'URI without query parameters: opened read/write'
+    for kv in query.split('#', 1)[0].split('&'):
+        k, _, v = kv.partition('=')
+        k, v = k.strip().lower(), v.strip().lower()
+        if k == 'mode' and v == 'ro':
+            return 'bad', ('URI parameter mode=ro opens the file read-only: the hot journal a killed recorder '
+                           'leaves behind cannot be rolled back, reading fails with "attempt to write a '
+                           'readonly database" instead of showing the committed prefix')
+        if k == 'immutable' and v in _TRUE_WORDS:
+            return 'bad', ('URI parameter immutable=1 makes SQLite ignore the hot journal of a killed recorder: '
+                           'uncommitted pages already spilled to the file are read as if committed')
+        if k == 'mode' and v not in ('rw', 'rwc'):
+            return 'unsure', f'URI parameter mode={v}'
+    return 'ok', 'URI opens the file read/write'
+
+
+def _txn_mode(fn, c):
+    iso, auto = astx.kwarg(c, 'isolation_level'), astx.kwarg(c, 'autocommit')
+    if len(c.args) > 3:
+        return 'unsure', 'positional isolation_level argument'
+    bad = und = None
+    if iso is not None:
+        if isinstance(iso, ast.Constant) and iso.value is None:
+            bad = 'isolation_level=None puts the connection in autocommit mode'
+        elif not (isinstance(iso, ast.Constant) and isinstance(iso.value, str)):
+            und = 'isolation_level is not a literal'
+    if auto is not None:
+        if isinstance(auto, ast.Constant) and auto.value is True:
+            bad = 'autocommit=True commits every statement on its own'
+        elif isinstance(auto, ast.Constant) and auto.value is False:
+            pass
+        elif astx.path(auto) in ('sqlite3.LEGACY_TRANSACTION_CONTROL', 'LEGACY_TRANSACTION_CONTROL'):
+            pass
+        else:
+            und = 'autocommit argument not recognised'
+    if bad:
+        return 'bad', bad + (': `with connection` no longer groups the case row and its '
+                             f'{GLOBAL} row into one commit')
+    if und:
+        return 'unsure', und
+    return 'ok', 'implicit transactions kept'
+
+
+def _opener_modules(repo):
+    rels = [REC, RDR]
+    for rel in list(repo.shipped()) + [r for r in EXTRA_OPENERS if repo.exists(r)]:
+        if rel in rels:
+            continue
+        text = repo.source(rel)
+        if 'sqlite3' in text and 'connect' in text:
+            rels.append(rel)
+    return rels
+
+
+@rule('C18.connect', floor=10)
 def connect(repo, out):
-    """sqlite3.connect of the recorder keeps implicit transactions (no autocommit mode)."""
-    for fn in rec_funcs(repo):
-        for c in astx.calls(fn.node):
-            if astx.call_name(c) not in ('sqlite3.connect', 'connect', 'sqlite3.dbapi2.connect'):
-                continue
-            if any(k.arg is None for k in c.keywords) or len(c.args) > 3 or \
-                    any(isinstance(a, ast.Starred) for a in c.args):
-                out.unsure(fn, c, 'connect arguments not recognised')
-                continue
-            iso, auto = astx.kwarg(c, 'isolation_level'), astx.kwarg(c, 'autocommit')
-            bad = None
-            und = None
-            if iso is not None:
-                if isinstance(iso, ast.Constant) and iso.value is None:
-                    bad = 'isolation_level=None puts the connection in autocommit mode'
-                elif not (isinstance(iso, ast.Constant) and isinstance(iso.value, str)):
-                    und = 'isolation_level is not a literal'
-            if auto is not None:
-                if isinstance(auto, ast.Constant) and auto.value is True:
-                    bad = 'autocommit=True commits every statement on its own'
-                elif isinstance(auto, ast.Constant) and auto.value is False:
-                    pass
-                elif astx.path(auto) in ('sqlite3.LEGACY_TRANSACTION_CONTROL', 'LEGACY_TRANSACTION_CONTROL'):
-                    pass
+    """Recorder connections keep implicit transactions; every opener of a recording permits journal recovery."""
+    for rel in _opener_modules(repo):
+        m = repo.module(rel)
+        for qn, fn in m.funcs.items():
+            calls = [c for c in astx.calls(fn.node) if astx.call_name(c) in _CONNECT_NAMES]
+            ctx = None
+            for c in calls:
+                if astx.call_name(c) == 'connect' and m.imports.get('connect', ('', ''))[0] != 'sqlite3':
+                    continue
+                if any(k.arg is None for k in c.keywords) or any(isinstance(a, ast.Starred) for a in c.args):
+                    out.unsure(fn, c, 'connect arguments not recognised')
+                    continue
+                ctx = ctx or Ctx(fn)
+                v1, why1 = _open_mode(c, ctx)
+                v2, why2 = _txn_mode(fn, c) if rel == REC else ('ok', '')
+                if v1 == 'bad':
+                    out.bad(fn, c, why1, key='open-no-journal-recovery')
+                elif v2 == 'bad':
+                    out.bad(fn, c, why2, key='connect-autocommit')
+                elif v1 == 'unsure' or v2 == 'unsure':
+                    out.unsure(fn, c, why1 if v1 == 'unsure' else why2)
                 else:
-                    und = 'autocommit argument not recognised'
-            if bad:
-                out.bad(fn, c, bad + ': `with connection` no longer groups the case row and its '
-                        f'{GLOBAL} row into one commit', key='connect-autocommit')
-            elif und:
-                out.unsure(fn, c, und)
-            else:
-                out.ok(fn, c, 'implicit transactions kept')
-        for st in astx.walk_stmts(fn.node.body):
-            if isinstance(st, ast.Assign) and any(isinstance(t, ast.Attribute) and
-                                                  t.attr in ('isolation_level', 'autocommit')
-                                                  for t in st.targets):
-                v = st.value
-                if isinstance(v, ast.Constant) and (v.value is None or v.value is True):
-                    out.bad(fn, st, 'connection switched to autocommit mode', key='connect-autocommit')
-                else:
-                    out.unsure(fn, st, 'transaction mode of the connection is reassigned')
+                    out.ok(fn, c, why1 + ('; ' + why2 if why2 else ''))
+            if rel != REC:
+                continue
+            for st in astx.walk_stmts(fn.node.body):
+                if isinstance(st, ast.Assign) and any(isinstance(t, ast.Attribute) and
+                                                      t.attr in ('isolation_level', 'autocommit')
+                                                      for t in st.targets):
+                    v = st.value
+                    if isinstance(v, ast.Constant) and (v.value is None or v.value is True):
+                        out.bad(fn, st, 'connection switched to autocommit mode', key='connect-autocommit')
+                    else:
+                        out.unsure(fn, st, 'transaction mode of the connection is reassigned')
 
 
 # --------------------------------------------------------------------------- C18.writers
@@ -1155,6 +1312,19 @@ selftest(
     Mutant('connect-isolation-attr', REC, "self.connection = sqlite3.connect(filepath)\n",
            "self.connection = sqlite3.connect(filepath)\n            self.connection.isolation_level = None\n",
            'C18.connect'),
+    Mutant('open-reader-readonly-uri', RDR, "        with sqlite3.connect(filename) as con:",
+           "        with sqlite3.connect(f'file:{filename}?mode=ro', uri=True) as con:", 'C18.connect',
+           also=[(RDR, "        with sqlite3.connect(metadata_filename) as con:",
+                  "        with sqlite3.connect(f'file:{metadata_filename}?mode=ro', uri=True) as con:")]),
+    Mutant('open-casetable-readonly-uri-via-local', RDR,
+           "        with sqlite3.connect(self._filename) as con:\n            cur = con.cursor()\n"
+           "            cur.execute(f\"SELECT count(*)",
+           "        uri = 'file:' + str(self._filename) + '?cache=private&mode=ro'\n"
+           "        with sqlite3.connect(uri, uri=True) as con:\n            cur = con.cursor()\n"
+           "            cur.execute(f\"SELECT count(*)", 'C18.connect'),
+    Mutant('open-reader-immutable', RDR, "        with sqlite3.connect(metadata_filename) as con:",
+           "        with sqlite3.connect('file:%s?immutable=1' % metadata_filename, uri=True) as con:",
+           'C18.connect'),
     # ---- writers
     Mutant('writers-reader-repairs-file', RDR, "        cur.execute('select * from global_iterations')\n",
            "        cur.execute('DELETE FROM global_iterations WHERE rowid IS NULL')\n"
@@ -1205,6 +1375,10 @@ selftest(
                 "        self._started.add(recording_requester)\n        states = system._list_states_allprocs()\n")]),
     Twin('twin-connect-deferred', REC, "self.connection = sqlite3.connect(filepath)",
          "self.connection = sqlite3.connect(filepath, isolation_level='DEFERRED')"),
+    Twin('twin-reader-connect-str', RDR, "        with sqlite3.connect(filename) as con:",
+         "        with sqlite3.connect(str(filename)) as con:"),
+    Twin('twin-reader-uri-rw', RDR, "        with sqlite3.connect(metadata_filename) as con:",
+         "        with sqlite3.connect(f'file:{metadata_filename}?mode=rw', uri=True) as con:"),
     Twin('twin-select-between', REC, _SYS_SRC,
          _SYS_SRC + "                c.execute(\"SELECT count(*) FROM system_iterations\")\n\n"),
 )
